@@ -19,6 +19,7 @@
 From Slim Require Import Base Keys Model BitmapRank BitmapRankProofs BitmapRank2 BitmapRank2Proofs
      BitmapSelectProofs Bits BitsVlenProofs BitsWfProofs BitsEncProofs BitsDecProofs BitsNodeProofs
      BitsProofs BitsFlatProofs.
+From Slim Require Import QueryProofs Flat Msg MsgProofs.
 From SlimGen Require Gen_Consts.
 Local Open Scope N_scope.
 
@@ -218,4 +219,57 @@ Proof.
   vm_compute in E. injection E as <-.
   eexists _, _, _, _. split; [reflexivity|]. split; [reflexivity|]. split; [vm_compute; reflexivity|].
   split; [vm_compute; reflexivity|]. split; [vm_compute; reflexivity|]. vm_compute. repeat split.
+Qed.
+
+(* ====================================================================== *)
+(* The query loop over the message: GetID / Get recomputed from the bitmaps *)
+(* ====================================================================== *)
+(* Msg.mgetid / Msg.mget are GetID / Get written the way the Go code runs them: every
+   step reads the node with getNode (NodeTypeBM rank, label-bitmap range, short table,
+   step / stored prefix), picks the child with getLeftChildID (Rank128 over the packed
+   label bitmaps), compares the leaf prefix (getLeafPrefix) and fetches the value with
+   VLenArray.get.  On the message of EVERY trie the builder returns they give exactly the
+   answers of the tree model, about which C01/C02/C03/C08/C09/C10 are proved.  [fuel] only
+   bounds the number of nodes visited; any fuel above the height gives the same answer. *)
+Theorem L3_message_getid :
+  forall o keys vals T m vs q fuel,
+    build o keys vals = Ok T -> encode_trie T = Val m -> init_vars m = Val vs ->
+    (trie_height T <= fuel)%nat ->
+    mgetid (S fuel) m vs q = Ok (getid T q).
+Proof. exact mgetid_getid. Qed.
+Print Assumptions L3_message_getid.
+
+Theorem L3_message_get :
+  forall o keys vals T m vs q fuel,
+    build o keys vals = Ok T -> encode_trie T = Val m -> init_vars m = Val vs ->
+    (trie_height T <= fuel)%nat ->
+    mget (S fuel) m vs q = get T q.
+Proof. exact mget_get. Qed.
+Print Assumptions L3_message_get.
+
+(* C01 end to end at the bit level: every retained key is found THROUGH THE MESSAGE with the
+   bytes of its supplied value *)
+Theorem L3_message_no_false_negatives :
+  forall ropt keys vals T m vs i k fuel,
+    build (normalize ropt) keys vals = Ok T -> encode_trie T = Val m -> init_vars m = Val vs ->
+    (trie_height T <= fuel)%nat ->
+    nth_error keys i = Some k -> retained (normalize ropt) keys vals i = true ->
+    exists v, mget (S fuel) m vs k = Ok (Found v) /\ val_bytes v = supplied vals i.
+Proof.
+  intros ropt keys vals T m vs i k fuel Hb Em Ev Hf Hk Hr.
+  destruct (kept_key_found (normalize ropt) keys vals T i k Hb Hk Hr) as (_ & v & Hg & Hv & _).
+  exists v. rewrite (mget_get _ _ _ _ _ _ _ _ Hb Em Ev Hf). split; assumption.
+Qed.
+Print Assumptions L3_message_no_false_negatives.
+
+Example L3_message_example :
+  exists T m vs, build ex_opt ex_keys ex_vals = Ok T /\ encode_trie T = Val m /\ init_vars m = Val vs /\
+    (trie_height T <= 5)%nat /\
+    map (mget 6 m vs) (ex_keys ++ [["097"%byte; "098"%byte]]) =
+      [Ok (Found (Some ["001"%byte])); Ok (Found (Some [])); Ok (Found (Some ["002"%byte; "003"%byte])); Ok NotFound].
+Proof.
+  destruct (build ex_opt ex_keys ex_vals) as [T|] eqn:E; [|vm_compute in E; discriminate].
+  vm_compute in E. injection E as <-.
+  eexists _, _, _. split; [reflexivity|]. split; [vm_compute; reflexivity|]. split; [vm_compute; reflexivity|].
+  split; [vm_compute; repeat constructor|]. vm_compute. reflexivity.
 Qed.
